@@ -34,6 +34,8 @@ func init() {
 	})
 }
 
+var explicitCounts = []uint32{4, 3, 1, 6, 240, 7, 2, 255}
+
 func captureStdout(f func()) string {
 	old := os.Stdout
 	r, w, err := os.Pipe()
@@ -136,7 +138,8 @@ func run(c *core.Ctx) {
 			if !snp {
 				ec.SevSnp = nil
 			} else if explicit {
-				ec.SevSnp.LaunchVmsas = 4
+				// explicit counts include ones GCE does not sell (a real run signs whatever count is asked for)
+				ec.SevSnp.LaunchVmsas = explicitCounts[(im+combo/128)%len(explicitCounts)]
 			} else {
 				ec.SevSnp.LaunchVmsas = 0
 			}
@@ -200,7 +203,12 @@ func run(c *core.Ctx) {
 			}
 			if mo && err == nil && !noTech {
 				// compare with what a real run signs
-				key := fmt.Sprintf("%v/%v/%v", snp, tdxOn, explicit)
+				key := fmt.Sprintf("%v/%v/%v/%d", snp, tdxOn, explicit, func() uint32 {
+					if ec.SevSnp != nil {
+						return ec.SevSnp.LaunchVmsas
+					}
+					return 0
+				}())
 				g, ok := realTables[key]
 				if !ok {
 					rc := cloneReq(ec)
